@@ -1,4 +1,11 @@
 #!/bin/bash
-# Re-evaluates every kept seeded change against the current checks (targeted property only). Slow (~1 min each).
+# Re-runs the targeted check (and any other check recorded as catching it) against every kept seeded change, with the
+# CURRENT checks (quick tier, VERIF_SEED=1). usage: tools/reeval_all_seeded.sh [stream-index stream-count]
 cd "$(dirname "$0")/.."
-for d in seeded/*/; do id=$(basename $d); tools/eval_seeded.py --from-seeded $id 2>&1 | tail -1; done
+i=${1:-0}; n=${2:-1}; k=0
+for d in seeded/*/; do
+  id=$(basename $d); k=$((k+1)); [ $((k % n)) -eq $i ] || continue
+  extra=$(/venv/bin/python -c "
+import json,sys; m=json.load(open('seeded/$id/meta.json')); print(' '.join(p for p in m.get('checks_quick_seed1',{}) if p!=m['property']))")
+  tools/eval_seeded.py --from-seeded $id --checks-only $extra 2>&1 | tail -1
+done
